@@ -141,7 +141,10 @@ pub fn build(thorough: bool, only: Option<&str>) -> Vec<Arc<Scenario>> {
 		for init in inits {
 			for a in muts {
 				for b in muts {
-					let readers: Vec<Vec<&str>> = vec![vec![], vec!["R0", "R0"], vec!["L"], vec!["R0", "L"]];
+					let mut readers: Vec<Vec<&str>> = vec![vec![], vec!["R0", "R0"], vec!["L"]];
+					if thorough {
+						readers.push(vec!["R0", "L"]);
+					}
 					for rd in readers {
 						let mut progs = vec![vec!["F0"], vec!["F1"]];
 						if !rd.is_empty() {
